@@ -475,6 +475,18 @@ func (fa *flowAn) isFresh(v ssa.Value, seen map[ssa.Value]bool) (bool, string) {
 				}
 				return true, ""
 			}
+			// a field of an object that was itself made in this activation (a helper struct
+			// returned by a callee whose result is fresh): what the field holds was put there while
+			// the object was built, and the callee's summary vouches for it
+			if fld, ok := x.X.(*ssa.FieldAddr); ok {
+				if _, isParam := fld.X.(*ssa.Parameter); !isParam {
+					if okObj, _ := fa.isFresh(fld.X, seen); okObj {
+						if _, isCall := fld.X.(*ssa.Call); isCall {
+							return true, ""
+						}
+					}
+				}
+			}
 			return false, "loaded from " + x.X.String() + " (" + x.X.Type().String() + ") at " + fa.pos(x.Pos())
 		}
 		return false, "unary " + x.String()
@@ -671,7 +683,12 @@ func allocRoots(v ssa.Value, seen map[ssa.Value]bool, out map[ssa.Value]bool) {
 	case *ssa.TypeAssert:
 		allocRoots(x.X, seen, out)
 	case *ssa.Extract:
-		allocRoots(x.Tuple, seen, out)
+		// the results of one call are allocations of their own (inside, outside := split(...))
+		if _, isCall := x.Tuple.(*ssa.Call); isCall {
+			out[x] = true
+		} else {
+			allocRoots(x.Tuple, seen, out)
+		}
 	case *ssa.Phi:
 		for _, e := range x.Edges {
 			allocRoots(e, seen, out)
